@@ -352,6 +352,9 @@ func c11(r *ev.Run, replay string) {
 		r.Set("states", 1)
 		return
 	}
+	if !requireScheduler() {
+		return
+	}
 	RunSharded(r, NumWorkers(), false)
 	n := r.Counter("states_visited")
 	r.Set("states", n)
